@@ -61,15 +61,27 @@ def decodeInstr : Sexp → Option (Instr CFloat × String)
   | .list [.atom "other", .atom k] => some (.other, "other-" ++ k)
   | _ => none
 
+/-- A verdict: accepted, or rejected at body instruction `idx` (`none`: the error is of a variant this harness
+does not know, so the instruction it names could not be read).  `kind` is the `TypeError` variant: it is
+recorded (tags) but NOT compared — the property fixes which programs / which instruction are rejected, not
+how the rejection is worded or classified. -/
 inductive Verdict where
   | ok
-  | err (kind : String) (idx : Nat)
-  deriving BEq, Repr
+  | err (kind : String) (idx : Option Nat)
+  deriving Repr
 
 def decodeVerdict : Sexp → Option Verdict
   | .list [.atom "ok"] => some .ok
-  | .list [.atom "err", .atom k, .atom i] => i.toNat?.map fun i => .err k i
+  | .list [.atom "err", .atom k, .atom "unknown"] => some (.err k none)
+  | .list [.atom "err", .atom k, .atom i] => i.toNat?.map fun i => .err k (some i)
   | _ => none
+
+/-- same verdict: both accept, or both reject the same instruction (the error kind is not compared) -/
+def Verdict.same : Verdict → Verdict → Bool
+  | .ok, .ok => true
+  | .err _ (some i), .err _ (some j) => i == j
+  | .err _ _, .err _ _ => true
+  | _, _ => false
 
 def errName : TypeErr → String
   | .undefinedMemoryReference => "undefined_memory_reference"
@@ -79,11 +91,12 @@ def errName : TypeErr → String
 
 def ofResult : Except (Nat × TypeErr) Unit → Verdict
   | .ok _ => .ok
-  | .error (i, k) => .err (errName k) i
+  | .error (i, k) => .err (errName k) (some i)
 
 def Verdict.render : Verdict → String
   | .ok => "(ok)"
-  | .err k i => s!"(err {k} {i})"
+  | .err k (some i) => s!"(err {k} {i})"
+  | .err k none => s!"(err {k} unknown)"
 
 def Verdict.isOk : Verdict → Bool
   | .ok => true
@@ -132,18 +145,18 @@ def handle (inp out : Sexp) : CaseResult :=
           -- every construction route (from_instructions, +, +=, to_quil→from_str, with ill-typed definition
           -- bodies added, a second call) must give the verdict of the program itself
           let routesModel := routes.length == 6 && routes.all fun r => match r with
-            | some v => v == m0
+            | some v => v.same m0
             | none => true
           let routesSpec := routes.length == 6 && routes.all fun r => match r with
-            | some v => v == i0
+            | some v => v.same i0
             | none => true
-          let agree := m0 == i0 && m1 == i1 && m2 == i2 && m3 == i3 && m4 == i4 && routesModel
+          let agree := m0.same i0 && m1.same i1 && m2.same i2 && m3.same i3 && m4.same i4 && routesModel
           -- the specification on the implementation's verdicts
           let isRealLit : CFloat → Bool := fun z => !imBig z
           let s1 := i0.isOk == allWellTypedB isRealLit Γ body        -- ok ⇔ every instruction well-typed on its own
           let s2 := i1.isOk == i0.isOk                               -- reordering
-          let s3 := i2 == i0                                         -- duplicating (same first error too)
-          let s4 := i3 == i0 && i4 == i0                             -- consistent renaming (two maps)
+          let s3 := i2.same i0                                       -- duplicating (same first error too)
+          let s4 := i3.same i0 && i4.same i0                            -- consistent renaming (two maps)
           let s6 := routesSpec                                       -- construction routes agree
           -- the stored declarations are exactly "the LAST declaration of each name wins" (computed from the
           -- generator's own list, not from what quil-rs stored)
@@ -152,8 +165,9 @@ def handle (inp out : Sexp) : CaseResult :=
             Γ.length == (declared.map (·.1)).eraseDups.length
           let s5 := match i0 with                                    -- the error names the first ill-typed instruction
             | .ok => true
-            | .err _ k => (body[k]?.map (wellTypedB isRealLit Γ)) == some false &&
+            | .err _ (some k) => (body[k]?.map (wellTypedB isRealLit Γ)) == some false &&
                 (body.take k).all (wellTypedB isRealLit Γ)
+            | .err _ none => true
           let specOk := s1 && s2 && s3 && s4 && s5 && s6 && s7
           let kinds := (bodyT.map (·.2)).eraseDups
           let depth := (body.map exprDepthOf).foldl max 0
@@ -162,7 +176,8 @@ def handle (inp out : Sexp) : CaseResult :=
             [if body.length > 32 then "len33+" else s!"len{min body.length 8}",
              match i0 with
              | .ok => "verdict-ok"
-             | .err k i => s!"verdict-{k}@{min i 8}"] ++
+             | .err k (some i) => s!"verdict-{k}@{min i 8}"
+             | .err k none => s!"verdict-{k}@unknown"] ++
             (if body.any (fun i => match i with | .realArg .. => true | _ => false) then [s!"exprdepth{min depth 6}"] else []) ++
             (if perm != List.range body.length then ["permuted"] else []) ++
             [if Γ.length > 8 then "decls-many" else s!"decls{Γ.length}",
